@@ -164,7 +164,11 @@ def _op_record(i: int, op: Any) -> Dict[str, Any]:
                 parts.append(f"{k}={v!r}")
         except Exception:
             parts.append(f"{k}=?")
-    exp = getattr(op, "expected_base_state_types", None)      # what THIS operation accepts
+    # what THIS operation accepts; read the raw slot, never a property (observing must not trigger lazy copies)
+    try:
+        exp = object.__getattribute__(op, "_expected_base_state_types")
+    except AttributeError:
+        exp = None
     if exp is None:
         exp = getattr(ty, "expected_base_state_types", None)
     return {"id": i, "ty": f"{type(ty).__name__}.{getattr(ty, 'name', '?')}",
